@@ -442,6 +442,18 @@ func (m *M) evalAll(args []any, e env) (vs []any, stop *Out) {
 	return vs, nil
 }
 
+// i64 is the exact integer value of an integer (num goes through float64, which
+// does not hold every int64).
+func i64(v any) int64 {
+	switch t := v.(type) {
+	case int64:
+		return t
+	case int:
+		return int64(t)
+	}
+	return 0
+}
+
 func num(v any) (f float64, isInt, ok bool) {
 	switch t := v.(type) {
 	case int64:
@@ -547,7 +559,7 @@ func foldNum(vs []any, op byte, intDiv int) any {
 		af, ai, _ := num(acc)
 		bf, bi, _ := num(v)
 		if ai && bi && !(op == '/' && intDiv == 2) {
-			a, b := int64(af), int64(bf)
+			a, b := i64(acc), i64(v)
 			switch op {
 			case '+':
 				acc = a + b
@@ -635,7 +647,7 @@ func mod(m *M, args []any, e env) Out {
 		case !isInt:
 			return raise()
 		}
-		iv[i] = int64(f)
+		iv[i] = i64(v)
 	}
 	if iv[1] == 0 {
 		return unknown()
@@ -680,6 +692,11 @@ func same(a, b any) int {
 	bf, bi, bn := num(b)
 	if an || bn {
 		switch {
+		case an && bn && ai && bi: // two integers: exactly
+			if i64(a) == i64(b) {
+				return yes
+			}
+			return no
 		case !(an && bn), af != bf:
 			return no
 		case ai == bi:
@@ -823,10 +840,12 @@ func order(m *M, args []any, e env, op string) Out {
 		var c int
 		switch {
 		case an && bn:
+			_, ai, _ := num(a)
+			_, bi, _ := num(b)
 			switch {
-			case af < bf:
+			case ai && bi && i64(a) < i64(b), !(ai && bi) && af < bf:
 				c = -1
-			case af > bf:
+			case ai && bi && i64(a) > i64(b), !(ai && bi) && af > bf:
 				c = 1
 			}
 		case ia && ib:
